@@ -29,11 +29,18 @@ TrHoisted == /\ Ev.ev = "hoisted" /\ Sufficient
              /\ \A i \in 1..Len(Ev.ks) : Same(Ev.outs[i], RotRows(Ev.v, Ev.ks[i]))
 TrSum == /\ Ev.ev = "ptsum" /\ Sufficient
          /\ Same(Ev.out, IF Ev.whole THEN InnerSumWhole(Ev.v, Ev.off, Ev.n, Ev.t) ELSE PartialTraces(Ev.v, Ev.off, Ev.n, Ev.t))
+\* Trace on the rlwe evaluator: the plaintext polynomial is projected on the coefficients at multiples of the gap;
+\* the result sits at the smaller of the two levels, the input is left intact, the keys asked for are advertised
+TrTrace == /\ Ev.ev = "trace" /\ Sufficient
+           /\ Ev.out = TraceProj(Ev.v, Ev.logn, Ev.lgn, Ev.ci)
+           /\ Ev.inok /\ Ev.nttok
+           \* the level is the smaller of the two; when nothing is to be summed (gap 1) the call is a plain copy of the input
+           /\ (Ev.lvlout = Ev.lvlmin \/ (TraceGap(Ev.logn, Ev.lgn, Ev.ci) = 1 /\ Ev.lvlout = Ev.lvlin))
 \* documented refusals (n*batch > slots, non-positive arguments, ...): an error, not a panic
 TrRefuse == /\ Ev.ev = "refuse" /\ Ev.err /\ ~Ev.panic
 
 TraceNext == /\ l <= Len(Trace) /\ l' = l + 1
-             /\ (TrGalEl \/ TrRot \/ TrSwap \/ TrHoisted \/ TrSum \/ TrRefuse)
+             /\ (TrGalEl \/ TrRot \/ TrSwap \/ TrHoisted \/ TrSum \/ TrTrace \/ TrRefuse)
 TraceInit == l = 1 /\ TLCSet(1, 1)
 TraceSpec == TraceInit /\ [][TraceNext]_l
 Progress == TLCSet(1, IF TLCGet(1) > l THEN TLCGet(1) ELSE l)
